@@ -110,7 +110,7 @@ func genC34(t *rapid.T) c34Case {
 
 type c34Model struct {
 	black       map[string]string // canonical key -> the key string it was blacklisted under (black took effect, no white since)
-	epochHeight uint32          // block height of the last epoch change (genesis: 0)
+	epochHeight uint32            // block height of the last epoch change (genesis: 0)
 	quits       int
 	blacks      int
 	epochAfter  bool // an epoch change happened after >=1 quit and >=1 blacklisting
